@@ -125,7 +125,7 @@ pub struct SanitOutcome {
 
 /// Run `verif sanit <scenario> <n>` under valgrind memcheck.
 pub fn memcheck(scenario: &str, n: usize) -> SanitOutcome {
-    let exe = std::env::current_exe().expect("exe");
+    let exe = std::env::current_exe().expect("exe"); // (a path: valgrind execs it, so /proc/self/exe would be valgrind)
     let has = Command::new("valgrind").arg("--version").output().map(|o| o.status.success()).unwrap_or(false);
     if !has {
         return SanitOutcome { ran: false, executions: 0, errors: vec![], note: "valgrind not found".into() };
